@@ -5,6 +5,10 @@
 (G) spec/WalkGenCases.tla: TLC emits, for every ordered tree <= 5 nodes x every filter set x every walk parameter
     combination, the expected sequence (and the navigation tables); each case is concretised as real source in three
     shapes (nested displays, nested calls, nested blocks) and replayed into pfst.
+(G') spec/WalkShapeCases.tla: TLC enumerates every pattern the grammar accepts (within bounds) of the node shapes whose
+    field order differs from text order - Call / ClassDef argument interleavings up to 6, Dict with **, `arguments`
+    mixtures, MatchMapping / MatchClass, Compare, comprehensions; checks/c14_shapes.py concretises them and they go
+    through (V).
 (V) harness/c14_rec.py records, for every program, what every traversal API of the real pfst answered, plus the
     stdlib description of the tree; spec/WalkTrace.tla (TLC) derives the source order from ast/tokenize positions and
     judges every answer with clause-named total verdicts.
@@ -35,7 +39,7 @@ CLAUSES = [
 ]
 
 MC_ACTIONS = ('Begin', 'DoStepFwd', 'DoStepBack', 'DoStepFwdTop', 'DoStepBackTop', 'DoNext', 'DoPrev', 'DoNextChild',
-              'DoPrevChild', 'Finish', 'GenBegin', 'GenNext', 'GenFinish', 'GenFinishUnfilteredSelf', 'GenClose')
+              'DoPrevChild', 'Finish', 'GenBegin', 'GenNext', 'GenFinish', 'GenClose')
 
 NJVM = 12
 BATCH_COST = 400_000   # ~ 3 k nodes of typical programs (~10 MB of JSON) per TLC batch
@@ -124,6 +128,9 @@ def build_specs(ctx):
             for ls in lseeds:
                 for v in ((1, 2, 3, 7) if ctx.quick else tuple(range(1, layouts.N_VARIANTS))):
                     add('exec', layouts.variant(p, v, ls * 1000 + 500 + i), f'extra[{i}]/v{v}')
+    from checks import c14_shapes
+    for mode, p, label in c14_shapes.build(ctx):   # TLC-enumerated field-order != source-order shapes
+        add(mode, p, label)
     if not ctx.quick:
         for name, seg in repo_fragments(rng, 650):
             add('exec', seg, f'repo:{name}')
@@ -141,7 +148,7 @@ def _shard(args):
     traces, skipped = [], []
     for tid, mode, src, pseed, label in specs:
         try:
-            traces.append(c14_rec.record(src, mode, pseed, tid, light=light))
+            traces.append(c14_rec.record(src, mode, pseed, tid, light=light, focus=label.startswith('shape:')))
         except c14_rec.OracleError as e:
             skipped.append((tid, label, 'oracle: ' + str(e)))
         except (SyntaxError, RecursionError) as e:   # pfst refused to parse the input: not a traversal question
@@ -272,7 +279,9 @@ def run(ctx):
     ctx.rule = ('M: WalkMC.tla - every ordered tree <= MaxN nodes (plain and mirrored) x every filter set; iteration '
                 'idioms and the generator stack machine as actions; 13 theorems as invariants. '
                 'G: every (tree <= 5 nodes, filter set, on, back, recurse, self_) case of WalkGenCases.tla concretised in 3 '
-                'source shapes and replayed into pfst. '
+                'source shapes and replayed into pfst; every grammar-accepted pattern of WalkShapeCases.tla (Call/ClassDef '
+                'argument interleavings <= 6, Dict **, arguments mixtures, MatchMapping/MatchClass, Compare, comprehensions) '
+                'concretised and validated through V. '
                 'V: every traversal API x parameter combination on corpus programs x layout variants (+ repository '
                 'sources in the thorough tier), each answer judged by TLC (WalkTrace.tla) against Walk.tla on the '
                 'tree of CPython\'s own parse, source order computed from ast/tokenize positions. '
@@ -301,7 +310,8 @@ def run(ctx):
             traces, sk = record_all(ctx, chunk, pool)
             skipped += sk
             nprog += len(traces)
-            core_skipped = [x for x in sk if x[1].startswith(('corpus', 'extra')) and x[1].endswith('/v0')]   # layout variants are only counted
+            core_skipped = [x for x in sk if (x[1].startswith(('corpus', 'extra')) and x[1].endswith('/v0'))
+                            or x[1].startswith('shape:')]   # layout variants are only counted
             if core_skipped:
                 raise common.Machinery(f'oracle could not be built for corpus inputs: {core_skipped[:3]}')
             verd = validate_all(ctx, traces)
@@ -430,13 +440,12 @@ def selftest(ctx):
     case('path: wrong index in child_path()', {'Path.EqSpec', 'Path.FromPathEqSpec'}, path_idx)
 
     verd = ctx.validate({'traces': [base] + [c[2] for c in cases]}, module='WalkTrace', heap='4g')
-    known = {'Walk.EqSpec.self'}
     ok = True
-    b0 = {c for _, c, _ in verd[1]['bad']} - known
-    print(f'accepted trace: failed clauses besides the known finding: {sorted(b0)}')
+    b0 = {c for _, c, _ in verd[1]['bad']}
+    print(f'accepted trace: failed clauses: {sorted(b0)}')
     ok &= not b0
     for name, expect, tr in cases:
-        got = {c for _, c, _ in verd[tr['id']]['bad']} - known
+        got = {c for _, c, _ in verd[tr['id']]['bad']}
         good = expect <= got
         ok &= good
         print(f'{"ok  " if good else "FAIL"} {name}: rejected by {sorted(got)}' + ('' if good else f' (expected {sorted(expect)})'))
